@@ -372,9 +372,20 @@ func report(id string, cfg *PropConfig, w *World, reps []*FuncReport, tier strin
 		"wall_s":      round3(wall.Seconds()),
 		"violations":  violations,
 	}
-	os.MkdirAll(filepath.Join(verif, "evidence"), 0o755)
+	// Mutation / seeded-change runs (selftest/run.sh, tools/try_seed.sh) set VERIF_EVIDENCE_DIR
+	// so that evidence of a deliberately broken tree never overwrites the committed record.
+	evDir := filepath.Join(verif, "evidence")
+	if d := os.Getenv("VERIF_EVIDENCE_DIR"); d != "" {
+		evDir = d
+	}
+	os.MkdirAll(evDir, 0o755)
 	data, _ := json.MarshalIndent(ev, "", " ")
-	os.WriteFile(filepath.Join(verif, "evidence", id+".json"), data, 0o644)
+	if err := os.WriteFile(filepath.Join(evDir, id+".json"), data, 0o644); err != nil {
+		fmt.Fprintln(os.Stderr, "evidence:", err)
+		if exit == 0 {
+			exit = 2
+		}
+	}
 	fmt.Printf("%s: %d/%d obligations discharged, %d functions, %d known findings, %d violations, %.1fs (exit %d)\n",
 		id, discharged, total, len(funcs), len(knownLines), violations, wall.Seconds(), exit)
 	return exit
